@@ -54,7 +54,15 @@ fn compare(seq: &[u64], limit: u64) -> Option<(usize, bool, bool)> {
     let mut real = PacketWindowFilter::new();
     let mut model = Model::default();
     for (i, id) in seq.iter().enumerate() {
-        let r = real.validate_packet_id(*id, limit);
+        // the filter runs on ids that came off the network: a panic is a refusal to give an answer at all (it is reported
+        // as "the filter says the opposite of the model", the panic monitor has the message)
+        let r = match std::panic::catch_unwind(std::panic::AssertUnwindSafe(|| real.validate_packet_id(*id, limit))) {
+            Ok(r) => r,
+            Err(_) => {
+                let m = model.accept(*id, limit);
+                return Some((i, !m, m));
+            }
+        };
         let m = model.accept(*id, limit);
         if r != m {
             return Some((i, r, m));
